@@ -22,7 +22,7 @@ Extraction "model.ml"
   ConcClass.known_class
   EdgeCmp.edge_eqb_d EdgeCmp.edge_eqb_u EdgeCmp.edge_cmp EdgeCmp.edge_reverse
   Conc.init_config Conc.run_sched Conc.explore Conc.cstep Conc.prog_of
-  Own.o_init Own.o_new Own.put_slot Own.drop_slot Own.grow_slot Own.remove_one Own.is_released Own.path_owns Own.strong
+  Own.o_init Own.o_new Own.astep Own.is_released Own.strong
   Scc.scc Serde.decompose Serde.rebuild Serde.deserialize
   Z.leb
   N.eqb N.of_nat N.to_nat Z.eqb Z.compare N.compare.
